@@ -96,7 +96,10 @@ def cases(tier: str, seed: int) -> list[dict]:
         elif conv == "cf1d":
             w = GW.structured_world(conv, 3, 4, bounds=True)
         else:
-            w = GW.structured_world(conv, 3, 3, shape="rect", bounds=True, holes=[(0, 0)] if conv == "cf2d" else None)
+            w = GW.structured_world(conv, 3, 3, shape="rect", bounds=True, holes=[(0, 0)] if conv in ("cf2d", "shoc_standard") else None)
+        # on-disk encoding of the coordinates: a finite _FillValue marking the cells without coordinates, or packed integers
+        # (what the file means is what emsarray.open_dataset decodes; the command line must read it the same way)
+        w["coordenc"] = {"cf1d": "packed", "cf2d": "fill", "shoc_simple": "packed", "shoc_standard": "fill"}.get(conv)
         CD.add_data_vars(w, rng, rich=False)
         geoms = GW.clip_geometries(w, rng)
         pts = GW.probe_points(w, rng, limit=12)
